@@ -2,7 +2,6 @@ package rules
 
 import (
 	"fmt"
-	"go/constant"
 	"go/token"
 	"go/types"
 	"sort"
@@ -223,7 +222,7 @@ func (c *Ctx) checkForcedDownload() {
 		}
 		// constants used in string tests of the MIME type anywhere in the function
 		have := map[string]bool{}
-		core.AllInstrs(fn, func(in ssa.Instruction) {
+		c.withCallees(fn, 2, func(_ *ssa.Function, in ssa.Instruction, _ ssa.Instruction) {
 			call, ok := in.(*ssa.Call)
 			if !ok {
 				return
@@ -235,9 +234,8 @@ func (c *Ctx) checkForcedDownload() {
 			if f, _ := core.LoadedField(core.Strip(call.Call.Args[0])); f == nil || f.Name() != "MimeType" {
 				return
 			}
-			if k, ok := call.Call.Args[1].(*ssa.Const); ok && k.Value != nil && k.Value.Kind() == constant.String {
-				// the test must be able to lead to the header: its true edge reaches `set`
-				have[constant.StringVal(k.Value)] = true
+			for _, k := range stringConstsOf(call.Call.Args[1]) {
+				have[k] = true
 			}
 		})
 		var missing []string
